@@ -192,6 +192,39 @@ def _linen_part(fails):
         fails.append(dict(inputs=dict(api='linen', check='method lifted by nn.remat called twice, then a plain draw', separator_fix=flag),
                           observed='draws inside / after the lifted calls differ from the plain code (counts not carried across the lifted scope)', violated='no-key-reuse'))
         return cases
+      # sibling / nested nn.jit layers drawing through the 'params' fallback at apply time: all keys distinct
+      cases += 1
+      drawn = []
+
+      class Noisy(nn.Module):
+        @nn.compact
+        def __call__(self, x):
+          k = self.make_rng('dropout')
+          jax.debug.callback(lambda kd, name=self.name: drawn.append((name, tuple(np.asarray(kd).ravel().tolist()))), jax.random.key_data(k))
+          return x + jax.random.normal(k, x.shape)
+
+      class Outer(nn.Module):
+        @nn.compact
+        def __call__(self, x):
+          return nn.jit(Noisy)(name='inner')(x) * 2.0
+
+      class JModel(nn.Module):
+        @nn.compact
+        def __call__(self, x):
+          a = nn.jit(Noisy)(name='a')(x)
+          b = nn.jit(Noisy)(name='b')(x)
+          c = Noisy(name='c')(x)
+          d = nn.jit(Outer)(name='d')(x)
+          return a, b, c, d
+      for rngs in ({'params': jax.random.key(5)}, jax.random.key(5), {'params': jax.random.key(5), 'dropout': jax.random.key(6)}):
+        drawn.clear()
+        outs_j = JModel().apply({}, jnp.zeros((4,)), rngs=rngs)
+        jax.effects_barrier()
+        ks_j = [k for _, k in drawn]
+        if len(set(ks_j)) != len(ks_j) or len(ks_j) != 4 or np.allclose(np.asarray(outs_j[0]), np.asarray(outs_j[1])):
+          fails.append(dict(inputs=dict(api='linen', check='sibling and nested nn.jit layers draw at apply time', rngs='single key' if not isinstance(rngs, dict) else sorted(rngs), separator_fix=flag),
+                            observed=f'{len(ks_j)} draws, {len(set(ks_j))} distinct keys: sibling jitted layers were handed the same key', violated='no-key-reuse'))
+          return cases
       # parameter initialisers: keys are position-addressed and not shared
       cases += 1
 
@@ -276,6 +309,21 @@ def _nnx_part(fails):
     if ref_before != before or ref_after != after:
       fails.append(dict(inputs=inp, observed='after restore the stream does not resume where the original stream would be (one draw consumed by the split)', violated='split-restore-resumes'))
       return cases
+  # a squeezed split (splits=1, squeeze=True) is restored like any other
+  cases += 1
+  rngs = nnx.Rngs(params=0, dropout=1)
+  first = _kd(rngs.dropout())
+  backups = nnx.split_rngs(rngs, splits=1, squeeze=True)
+  inner_key = _kd(rngs.dropout.key.value)
+  inner_draw = _kd(rngs.dropout())
+  nnx.restore_rngs(backups)
+  after = [_kd(rngs.dropout()), _kd(rngs.dropout())]
+  ref = nnx.Rngs(params=0, dropout=1)
+  ref.dropout(); ref.dropout()
+  ref_after = [_kd(ref.dropout()), _kd(ref.dropout())]
+  if after != ref_after or len({first, inner_draw, *after}) != 4:
+    fails.append(dict(inputs=dict(api='nnx', check='split-restore', splits=1, squeeze=True), observed='after restore the stream does not resume the original stream (the split key is still installed, or a key is replayed)', violated='split-restore-resumes'))
+    return cases
   # reseed restarts the stream: int and key seeds, used streams
   for seed_kind, used in itertools.product(('int', 'key', 'derived-key'), (0, 3)):
     cases += 1
@@ -310,7 +358,7 @@ def run(tier, seed):
       break
   return dict(name=NAME, cases=cases, distinct=cases,
               bound='linen: 4 module trees (depth <= 3, incl. ab/c vs a/bc) x separator flag toggled F,T,F,T x {base, extra siblings, reversed order, extra stream, missing stream} x 2 draws per stream and scope; '
-                    'nnx: 3 seed sets x 6-draw plan, split/restore splits {2,3} x only {..., dropout}, reseed {int, key, derived key} x {unused, used} stream',
+                    'sibling / nested nn.jit layers x 3 rngs layouts; nnx: 3 seed sets x 6-draw plan, split/restore splits {2,3} x only {..., dropout} + squeezed split of 1, reseed {int, key, derived key} x {unused, used} stream',
               failures=fails[:2], error=None)
 
 
